@@ -44,7 +44,8 @@ TABD = {'type': 'Table', 'pre': [40.0, 20.0, 10.0], 'scaled': [6.0, 2.0, 0.0]}
 TAB2 = {'type': 'Table', 'pre': [-1.0, 1.0], 'scaled': [1.0, 4.0]}
 LIN1 = {'type': 'Linear', 'slope': 1.0, 'intercept': 5.0}   # identity slope: a tempting place for an in-place shortcut
 UNARY = [LIN, LIN1, POLY0, POLY1, POLY3, POLY4NS, TABA, TABD]
-UNARY2 = [LIN2, {'type': 'Polynomial', 'coef': [-1.0, 0.0, 2.0]}, TAB2]
+POLY12 = {'type': 'Polynomial', 'coef': [1.0, 0.5, -0.25, 0.125, 0.0, 0.01, -0.002, 3e-4, 4e-5, -5e-6, 6e-7, 7e-8]}
+UNARY2 = [LIN2, {'type': 'Polynomial', 'coef': [-1.0, 0.0, 2.0]}, TAB2, POLY12]
 
 
 def graphs(depth, first_set=None):
